@@ -133,7 +133,16 @@ func (a *advServer) onSend(_ int, m *spb.ModifyRequest) {
 		a.sessQ = append(a.sessQ, &spb.ModifyResponse{SessionParamsResult: &spb.SessionParametersResult{Status: spb.SessionParametersResult_OK}})
 	}
 	if m.ElectionId != nil {
-		a.sessQ = append(a.sessQ, &spb.ModifyResponse{ElectionId: m.ElectionId})
+		// a server reports the highest id it knows, which need not be the one just announced:
+		// every other answer carries a higher id, one in four of them in the high word
+		rep := &spb.Uint128{High: m.ElectionId.GetHigh(), Low: m.ElectionId.GetLow()}
+		switch a.r.Intn(4) {
+		case 0:
+			rep.Low += uint64(1 + a.r.Intn(5))
+		case 1:
+			rep.High, rep.Low = rep.High+1, 0
+		}
+		a.sessQ = append(a.sessQ, &spb.ModifyResponse{ElectionId: rep})
 	}
 	a.nRecv += int64(len(m.Operation))
 	for _, o := range m.Operation {
